@@ -284,3 +284,68 @@ def _replacement(ctx):
     depends = ret.has_field("ChunkStore", "hosts") or ret.has_field("ChunkStore", "proxy_addresses") or ret.has_call("get_partner_host") or any("partner" in (b.local_name(l) or "") for l in ret.locals)
     ctx.check(depends, "C12.D3", "replacement-ignores-partner-host", site(b), ok="the replacement choice depends on the surviving partner's host",
               bad="generate_new_free_proxy chooses the replacement from the failed proxy's own host links only; the surviving partner's host never flows into the choice, so the new proxy can land on the partner's host although another host has a free proxy")
+    _partner_index(ctx)
+
+
+def _idx_const(b, du, e):
+    if isinstance(e, dict) and "idx" in e:
+        for d in du.defs.get(e["idx"], []):
+            if d[0] == "assign" and d[3]["rv"]["k"] == "use" and "c" in d[3]["rv"]["a"]:
+                return d[3]["rv"]["a"]["c"].get("int")
+    if isinstance(e, dict) and "ci" in e:
+        return e["ci"]
+    return None
+
+
+def _field_index_reads(b, du, field):
+    """[(bb, dest local, index)] of `&chunk.<field>[const]` reads"""
+    out = []
+    for bb, i, st in b.assigns():
+        rv = st["rv"]
+        pl = rv.get("p") if rv["k"] in ("ref", "use") else None
+        if rv["k"] == "use":
+            pl = rv["a"].get("cp") or rv["a"].get("mv")
+        if not pl:
+            continue
+        pr = pl["p"]
+        for k, e in enumerate(pr):
+            if isinstance(e, dict) and e.get("name") == field and k + 1 < len(pr):
+                ix = _idx_const(b, du, pr[k + 1])
+                if ix is not None:
+                    out.append((bb, st["place"]["l"], ix))
+    return out
+
+
+def _partner_index(ctx):
+    """the partner of the proxy at position i of a chunk is the proxy at position 1 - i: in every helper that looks a proxy
+    up by proxy_addresses[i] and answers with hosts[j], i != j"""
+    from ..lib import branch_conditions
+    F = ctx.F
+    b = F.one(UPD + "::get_partner_host")
+    if b is None:
+        ctx.info("C12.D3", "partner-index", "no get_partner_host helper (partner lookup is inline)")
+        return
+    ctx.analysed(b)
+    du = DefUse(b)
+    dom = cfg.dominators(b)
+    pa = _field_index_reads(b, du, "proxy_addresses")
+    hs = _field_index_reads(b, du, "hosts")
+    if not (ctx.floor("C12.D3", "proxy_addresses[const] reads in get_partner_host", len(pa), 2) and ctx.floor("C12.D3", "hosts[const] reads in get_partner_host", len(hs), 2)):
+        return
+    seen = set()
+    for hb, hl, j in hs:
+        conds = branch_conditions(b, hb, dom)
+        idxs = set()
+        for d, discr, val in conds:
+            is_true = (val == 1) or (isinstance(val, tuple) and val[1] == [0])
+            if not is_true:
+                continue
+            sl = du.slice_operand(discr)
+            for pb, plc, i_ in pa:
+                if plc in sl.locals:
+                    idxs.add(i_)
+        seen |= idxs
+        ctx.check(len(idxs) == 1 and j == 1 - next(iter(idxs)), "C12.D3", "partner-index:hosts[%d]" % j, site(b, hb), ok="found at proxy_addresses[%s] -> partner host hosts[%d]" % (sorted(idxs), j),
+                  bad="the proxy found at proxy_addresses%s gets hosts[%d] as its partner's host: that is its own host, so the partner's host is not excluded and both halves of the chunk can end up on one host" % (sorted(idxs), j))
+    ctx.check(seen == {0, 1}, "C12.D3", "partner-index:both-positions", site(b), ok="both chunk positions are looked up", bad="only positions %s are looked up" % sorted(seen))
+
